@@ -232,6 +232,20 @@ TRUSTED_BASE = [
     "object's own behaviour (the built-in one: C15_translated), that the world's key / cache answers / decision of CacheHist.stepCached are the "
     "translated key / the cache object's answers / _decide_async's result (hypotheses of engine_cache_proto_stepCached, tied by the differential "
     "histories), the interleaving semantics of Model/Conc.lean and the evaluator's access order outside the range (C09_shape)",
+    "for the translated command line and parser dispatch (C17: _parse_yaml / parse_policy_text / parse_policy_bytes of store/policy_loader.py; "
+    "_read_text_from_path_or_stdin, _load_policy_from_arg, _lint_doc, _validate_doc, cmd_lint, cmd_validate, cmd_check, main of cli.py; "
+    "harness/pytolean_cli.py, plugin extractors/src_translation_cli.py, obligation Run/C17_cli_translated.lean, validated against the real functions "
+    "with stub collaborators on every run by Run/SrcEvalCli.lean and against the model by the driver's cli-model) the trusted readings are: "
+    "exceptions are objects with a class NAME and `except C` catches by the table PyX.ancestors of CPython 3.12's builtin classes (a class not in the "
+    "table is a direct subclass of Exception: jsonschema's ValidationError/SchemaError, PyYAML's YAMLError); collaborators are function parameters = the "
+    "outcome of the call (open+read+close of `with open(P) as f: … f.read()` is ONE outcome; `import yaml` is one); OUTPUT-ONLY statements (they call "
+    "_print / _format_issues_text / sys.stdout.write / parser.print_help, contain no return/raise/try and no collaborator call, assign nothing that is "
+    "read later) are no-ops that do not raise — so the linters are assumed to return iterables of dicts; the message of `raise Cls('…')` is not "
+    "represented; an argparse.Namespace is the dict of its attributes (getattr with default, hasattr); xs.append(e) on a local bound to a list display "
+    "is rebinding; `any(a in (…) for a in argv)` does not raise (argv is a list of strings where it is truthy); int(rc) is represented for "
+    "int/bool/None/list/dict (float and str statuses answer the uncatchable class NotRepresented); the hypothesis of the cmd_* equalities: the "
+    "Namespace's `policy` is a str or absent/None; SYNTACTIC readings re-read on every run and compared with the pinned expectation: the delivery "
+    "paths' parser calls and hints, validate_policy's schema resource and validator call, cli.py's imports, the default-algorithm literals",
 ]
 
 
